@@ -12,6 +12,7 @@ CONSTANTS Family = "heco"
           MaxStored = 14
           MaxLen = 9
           EmitOn = FALSE
+          TwoBranch = FALSE
           TraceLen = 16
 INVARIANT PropC29
 INVARIANT ModelSane
